@@ -369,7 +369,7 @@ O(id='INTEGER_oer.roundtrip', props=['C01', 'C02', 'C06', 'C07', 'C13'], kind='w
   bound='every intmax_t value with 0..2 redundant leading octets, every layout {width 0,1,2,4,8} x {signed, non-negative}', min_props=50, timeout=900, **IO)
 O(id='NativeInteger_oer', props=['C01', 'C02', 'C13'], kind='width', entry='h_NativeInteger_oer', functions=['NativeInteger_encode_oer', 'NativeInteger_decode_oer', 'INTEGER_encode_oer'],
   unwind=14, cbmc=['--no-malloc-may-fail'], bound='every 64-bit native value, signed and unsigned fields, every layout width 0,1,2,4,8', min_props=50, timeout=900, **IO)
-O(id='INTEGER_decode_oer.b12', props=['C04', 'C05', 'C14'], kind='bounded', entry='h_INTEGER_decode_oer', functions=['INTEGER_decode_oer'],
+O(id='INTEGER_decode_oer.b12', props=['C04', 'C05', 'C14', 'C15'], kind='bounded', entry='h_INTEGER_decode_oer', functions=['INTEGER_decode_oer'],
   unwind=14, cbmc=['--malloc-may-fail', '--malloc-fail-null', '--memory-leak-check'],
   bound='every input of at most 12 octets, width 0..8, both signs, fresh or re-used structure; every allocation may fail', min_props=50, timeout=900, **IO)
 
